@@ -82,8 +82,14 @@ fn one_history(run: &Run, case: u64) {
         if twice && rep.backup.as_ref().map(|b| b.ok()).unwrap_or(false) {
             let first = rep.new_band.unwrap();
             let o2 = if rng.chance(1, 2) { rep.backup_opts.unwrap() } else { random_opts(&mut rng) };
-            let rep2 = w.backup(o2);
-            descs.push(format!("{} (tree unchanged)", rep2.desc));
+            // every other time the second backup does not record owners: the tree is as
+            // unchanged as before, only the recorded metadata differs
+            let no_owner = rng.chance(1, 2);
+            let rep2 = if no_owner { cs::without_owner(|| w.backup(o2)) } else { w.backup(o2) };
+            if no_owner {
+                run.count("unchanged_tree_backups_with_the_owner_option_switched_off", 1);
+            }
+            descs.push(format!("{} (tree unchanged{})", rep2.desc, if no_owner { ", owners not recorded" } else { "" }));
             let replay = json!({"case": case, "step": step, "history": descs});
             let Some(out) = rep2.backup.as_ref().filter(|b| b.ok()) else {
                 run.violation("second-backup-failed", rep2.backup.map(|b| b.describe()).unwrap_or_default(), replay);
@@ -434,7 +440,7 @@ pub fn run(tier: Tier, replay: Option<Value>) -> i32 {
         &[("large_block_scenarios", 2), ("large_block_writes_observed", 4), ("unchanged_backups_of_versions_with_more_than_10000_hunks", 1), ("unchanged_tree_backups", 10), ("block_writes_observed", 100), ("resume_crash_points", 100), ("crash_points_with_recorded_file_entries", 20), ("recorded_entries_compared", 50), ("unchanged_resume_crash_points", 100), ("read_fault_runs", 100)]
     };
     run.finish(
-        "clause 1: in histories, a second backup of an untouched tree (same or different options) must issue zero block writes, report written_blocks == 0 and record identical addresses for every file (independent decode); clause 2: in every backup of every history each block write is issued only for a name whose file is absent or zero-length, and at most once (attempts are counted, from the interceptor log with pre-states); clause 3: for EVERY crash point k of the C03 scenarios' backup trace, the run is killed before k and then resumed with the same options: no block file left non-empty by the interrupted run is written again, every file entry recorded in the interrupted run's hunks reappears with identical addresses, and unmodified_files >= their number; and for trees that have not changed since the last complete version, a backup killed at EVERY point followed by another backup must still write no block and record that version's addresses. Also, clause 2 under single faults: every read / list_dir / metadata operation of a backup's trace fails once with each of 4 kinds, and still no block write may be issued for a name whose file exists non-empty. Scale: a 10 040-file tree with one entry per hunk backed up twice (no block written, same addresses); two scenarios with blocks of 9-20 MiB (two identical 21 MiB files and two identical 9 MiB files under default options; one 27 MiB file of three identical 9 MiB blocks): each block is written once, a second backup writes none, the restore is exact. Distinct = histories with an unchanged-tree pair / (scenario, k) with recorded entries.",
+        "clause 1: in histories, a second backup of an untouched tree (same or different options; every other time with the owner option switched off) must issue zero block writes, report written_blocks == 0 and record identical addresses for every file (independent decode); clause 2: in every backup of every history each block write is issued only for a name whose file is absent or zero-length, and at most once (attempts are counted, from the interceptor log with pre-states); clause 3: for EVERY crash point k of the C03 scenarios' backup trace, the run is killed before k and then resumed with the same options: no block file left non-empty by the interrupted run is written again, every file entry recorded in the interrupted run's hunks reappears with identical addresses, and unmodified_files >= their number; and for trees that have not changed since the last complete version, a backup killed at EVERY point followed by another backup must still write no block and record that version's addresses. Also, clause 2 under single faults: every read / list_dir / metadata operation of a backup's trace fails once with each of 4 kinds, and still no block write may be issued for a name whose file exists non-empty. Scale: a 10 040-file tree with one entry per hunk backed up twice (no block written, same addresses); two scenarios with blocks of 9-20 MiB (two identical 21 MiB files and two identical 9 MiB files under default options; one 27 MiB file of three identical 9 MiB blocks): each block is written once, a second backup writes none, the restore is exact. Distinct = histories with an unchanged-tree pair / (scenario, k) with recorded entries.",
         &["kill = no later storage effect", "E2 reader trusted"],
         Some(true),
         needs,
